@@ -50,7 +50,7 @@ def check(an, rep, tier):
                    'rows), eigh of A A^T whitened by 1/sqrt(w) -> orthonormal '
                    'rows']
     ds = (2, 3) if tier == 'quick' else (2, 3, 4)
-    wh = {'transformation.truncate', 'svd.matrix_svd', 'svd.matrix_skeleton',
+    wh = {'utils._reshape', 'transformation.truncate', 'svd.matrix_svd', 'svd.matrix_skeleton',
           'act_many.add_many'}
     runs = sweep(an, rep, ['transformation.truncate', 'act_many.add_many'], ds,
                  rules=S_RULES + ['U-cmp', 'U-cmp-lg', 'O-gram'], wheres=wh)
